@@ -65,6 +65,10 @@ SeqsInsUpdSplit == <<{}, {<<1, 1, 1>>}, {<<1>>}, {<<1>>}, {}, {<<1>>}>>
 \* statements (CREATE TABLE); a crash anywhere; then statements that take fresh row ids
 ScriptGrowThenDdl == <<{"create"}, {"insert"}, {"insert"}, {"insert"}, {"create"}, {"create", "insert"}, {"create", "insert"}>>
 RowsGrowThenDdl == <<{0}, {2}, {2}, {1, 2}, {0}, {1, 2}, {1, 2}>>
+\* a table whose root has split (a root-move record for the catalog is in the log), flushed; one more insert; then a second
+\* CREATE TABLE, whose own flush is torn
+ScriptSplitThenCreate == <<{"create"}, {"insert"}, {"insert"}, {"create"}, {"insert"}>>
+RowsSplitThenCreate == <<{0}, {3}, {1}, {0}, {1}>>
 RowsNone == <<>>
 RowsInsUpdSplit == <<{0}, {3}, {1}, {1}, {0}, {1}>>
 RowsInsDelSplit == <<{0}, {3}, {1}, {1}, {0}, {1}, {1}>>
